@@ -221,6 +221,7 @@ def run(c, chk):
         chk.ok('R19.6', 'writers of cfg->pff', 'cfg_set_print_filter_func() only')
 
     indent_writer(c, chk)
+    builtin_formatter(c, chk)
     chk.rule('R19.8', 'a print callback registered by name lands on the option the printer will visit: the name is resolved by cfg_getopt(), not by the schema-template walker')
     spf = c.need('cfg_set_print_func')
     cal = set(x.callee_name() for x in c.deep_calls(spf))
@@ -422,3 +423,28 @@ def indent_writer(c, chk):
     elif n:
         chk.ok('R19.7', 'cfg_indent: %d paths' % n, 'two blanks per loop iteration, one iteration per level', sample=True)
     chk.floor('R19.7 paths of the indentation writer', n, 2)
+
+
+def builtin_formatter(c, chk):
+    """R19.9: "a per-option print callback REPLACES the built-in value formatting": the built-in formatter (the public
+    cfg_opt_nprint_var(), which callbacks may - and do - call for the values they do not format themselves) is the fallback
+    and never hands a value to a callback itself; the choice between the two is made by the option printer alone"""
+    from . import c14
+    chk.rule('R19.9', 'the built-in value formatter reaches no user callback (a callback that delegates to it for some values must not be re-entered)')
+    f = c.need('cfg_opt_nprint_var')
+    n = 0
+    bad = None
+    for g in c.deep_funcs(f):
+        for call in g.calls():
+            n += 1
+            if call.callee_name() is None and call.callee.kind == 'reg':
+                fld = c14.fnptr_field(g, call.callee)
+                if not fld.startswith('const:'):
+                    bad = bad or (g, call, fld)
+    if bad is not None:
+        g, call, fld = bad
+        chk.fail('R19.9', 'formatter-calls-callback:%s' % fld, c.where(call), 'cfg_opt_nprint_var() calls through the function pointer %s: the built-in formatter hands the value '
+                 'back to a user callback, so a print callback that falls back on it for the values it does not format itself recurses without end' % fld)
+    else:
+        chk.ok('R19.9', 'cfg_opt_nprint_var: %d calls' % n, 'all direct (or through a constant table of built-in writers)', sample=True)
+    chk.floor('R19.9 calls in the built-in formatter', n, 4)
